@@ -313,6 +313,26 @@ static void gen_c11(plan_t *p, rng_t *r)
             op_str2(o, gb, gbn);
         }
         if (rng_chance(r, 1, 4)) {
+            /* lengths chosen by arithmetic: "dir/file" of exactly L characters around PATH_MAX, search-path components that
+               just fit, exactly fill, or just overflow what is left of the path buffer */
+            static const int Ls[] = { 10, 100, 2000, 4000, 4088, 4090, 4091, 4092, 4093, 4094, 4095, 4096, 4097 };
+            int L = Ls[rng_below(r, 13)], f = rng_range(r, 1, L > 300 ? 300 : L > 2 ? L - 2 : 1), d = L - 1 - f, M = 4096 - L - 2, comps = rng_range(r, 1, 4);
+            if (d < 1) { d = 1; f = L - 2 > 0 ? L - 2 : 1; }
+            gbn = 0; for (int q = 0; q < f && gbn < sizeof(gb) - 1; q++) gb[gbn++] = (unsigned char)('a' + rng_below(r, 6));
+            o = plan_op(p, 0, "find", 1, 0L); op_str(o, gb, gbn);
+            gbn = 0; gb[gbn++] = '/'; for (int q = 1; q < d && gbn < sizeof(gb) - 1; q++) gb[gbn++] = (unsigned char)(q % 200 == 0 ? '/' : 'a' + rng_below(r, 6));
+            gb[gbn++] = 1;
+            for (int q = 0; q < comps; q++) {
+                static const int deltas[] = { -2, -1, 0, 1, 2 };
+                int cl = rng_chance(r, 1, 2) ? M + deltas[rng_below(r, 5)] : rng_chance(r, 1, 2) ? rng_range(r, 1, 40) : rng_chance(r, 1, 2) ? 32767 + deltas[rng_below(r, 5)] : 4096 + deltas[rng_below(r, 5)];
+                if (cl < 1) cl = 1;
+                if (q && gbn < sizeof(gb) - 2) gb[gbn++] = ':';
+                if (gbn < sizeof(gb) - 2) gb[gbn++] = '/';
+                for (int z = 1; z < cl && gbn < sizeof(gb) - 2; z++) gb[gbn++] = (unsigned char)(z % 250 == 0 ? '/' : 'p');
+            }
+            op_str2(o, gb, gbn);
+        }
+        if (rng_chance(r, 1, 4)) {
             if (rng_chance(r, 1, 2)) { o = plan_op(p, 0, "find", 1, 1L); op_str(o, "one", 3); { static const char t1[] = "x\001/tmp:/nonexistent/:/cfg/d"; op_str2(o, t1, sizeof(t1) - 1); } }     /* found through the search path */
             else { o = plan_op(p, 0, "find", 1, 0L); op_str(o, "one", 3); { static const char t2[] = "d\001/tmp:/cfg"; op_str2(o, t2, sizeof(t2) - 1); } }                               /* found directly as dir/file */
         }
